@@ -89,19 +89,24 @@ class Runner(object):
         self.ck, self.mr = ck, mr
         self.lines, self.impl, self.meta = [], [], []
         self.nviol = 0
+        self.prefix = ''
 
-    def conv(self, cfg, P, R, script, rtox=None, timeout=8, release=True, kind='random'):
+    def conv(self, cfg, P, R, script, rtox=None, timeout=8, release=True, kind='random', ini=None, tgt=None, hist=None, reuse=None):
         ck = self.ck
         script = [tuple(x) for x in script]
-        o = air.conversation(cfg, P, R, script, rtox=rtox, ini_timeout=timeout, release=release)
+        o = air.conversation(cfg, P, R, script, rtox=rtox, ini_timeout=timeout, release=release, ini=ini, tgt=tgt)
         case = {'cfg': cfg, 'payloads': [hexs(p) for p in P], 'responses': [hexs(r) for r in R],
                 'script': ''.join(a + b for a, b in script), 'rtox': rtox, 'timeout': timeout, 'release': release}
+        if hist:
+            # the same Initiator and / or Target object went through these conversations before (each after a new activation)
+            case['reuse'], case['history'] = reuse, hist
+        self.prefix = 'reactivated-%s:' % reuse if hist else ''
         self.lines.append(model_line(cfg, P, R, script, rtox, timeout, release))
         self.impl.append(impl_line(o))
         self.meta.append((kind, case))
         nfaults = sum(1 for f in script if f != ('D', 'D'))
         chained = any(len(p) > o['ini_miu'] for p in P) or any(len(r) > (o['tgt_miu'] or 1) for r in R)
-        ck.case((sorted(cfg.items(), key=str), case['payloads'], case['responses'], case['script'], rtox, timeout, release),
+        ck.case((sorted(cfg.items(), key=str), case['payloads'], case['responses'], case['script'], rtox, timeout, release, reuse, repr(hist)),
                 chained or nfaults > 0,
                 {'kind': kind, 'cfg': cfg, 'sizes': [len(p) for p in P], 'faults': nfaults, 'ini': [x[:12] for x in o['ini']][:4]})
         ck.count(kind)
@@ -109,6 +114,25 @@ class Runner(object):
         return o
 
     # ---------------------------------------------------------------- monitor (property text)
+    def viol(self, key, what, data):
+        self.ck.violation(self.prefix + key, ('after re-activation of the same %s object: ' % data.get('reuse') if self.prefix else '') + what, data)
+
+    def history(self, convs, reuse, kind='history'):
+        """successive activations + conversations on the SAME Initiator and / or Target object (reuse: 'initiator' |
+        'target' | 'both'); every conversation is judged and compared with the model like a first one"""
+        ini = tgt = None
+        hist = []
+        for c in convs:
+            o = self.conv(c['cfg'], c['P'], c['R'], c.get('script', []), rtox=c.get('rtox'), timeout=c.get('timeout', 8),
+                          release=c.get('release', True), kind=kind, ini=ini, tgt=tgt, hist=list(hist), reuse=reuse)
+            if reuse in ('initiator', 'both'):
+                ini = o['objs'][0]
+            if reuse in ('target', 'both'):
+                tgt = o['objs'][1]
+            hist.append({'cfg': c['cfg'], 'payloads': [hexs(p) for p in c['P']], 'responses': [hexs(r) for r in c['R']],
+                         'script': ''.join(a + b for a, b in c.get('script', [])), 'rtox': c.get('rtox'),
+                         'timeout': c.get('timeout', 8), 'release': c.get('release', True)})
+
     def monitor(self, cfg, P, R, script, rtox, timeout, release, o, case):
         ck = self.ck
         valid_cfg = cfg['did'] is None or 1 <= cfg['did'] <= 14
@@ -119,7 +143,7 @@ class Runner(object):
             n = len(h) // 2 - 1 - (1 if btx == '106A' else 0)
             lim = LR[cfg['lrt']] if d == 'I' else LR[cfg['lri']]
             if n > lim:
-                ck.violation('lr-exceeded:%s:did=%s' % (d, cfg['did'] is not None),
+                self.viol('lr-exceeded:%s:did=%s' % (d, cfg['did'] is not None),
                              'frame of %d transport bytes sent to a receiver that announced LR=%d' % (n, lim), case)
         if not valid_app:
             return
@@ -128,20 +152,20 @@ class Runner(object):
         got_i = [x for x in o['ini'] if x.startswith('ok')]
         got_t = [x for x in o['tgt'] if x.startswith('ok')]
         if got_i != exp_i[:len(got_i)] or len(got_i) > len(P):
-            ck.violation('foreign-data:initiator', 'initiator application received data that is not a prefix of what '
+            self.viol('foreign-data:initiator', 'initiator application received data that is not a prefix of what '
                          'the target passed to exchange()', dict(case, got=o['ini']))
         if got_t != exp_t[:len(got_t)]:
-            ck.violation('foreign-data:target:rtox=%s' % bool(rtox and any(rtox)),
+            self.viol('foreign-data:target:rtox=%s' % bool(rtox and any(rtox)),
                          'target application received data that is not a prefix of what the initiator '
                          'passed to exchange()', dict(case, got=o['tgt']))
         for side, res in (('initiator', o['ini']), ('target', o['tgt'] + o['tgt_rtox'])):
             for x in res:
                 if x.startswith('crash'):
-                    ck.violation('crash:%s:%s' % (side, x.split()[1]),
+                    self.viol('crash:%s:%s' % (side, x.split()[1]),
                                  '%s application got %s instead of a CommunicationError' % (side, x.split()[1]),
                                  dict(case, ini=o['ini'], tgt=o['tgt']))
         if 'ini_deactivate' in o:
-            ck.violation('crash:deactivate', 'Initiator.deactivate raised ' + o['ini_deactivate'], case)
+            self.viol('crash:deactivate', 'Initiator.deactivate raised ' + o['ini_deactivate'], case)
         # transparent recovery of absorbable scripts
         nfaults = sum(1 for f in script if f != ('D', 'D'))
         # (time-out extension is excluded from this demand: the NFC-DEP rules make an RTOX response to
@@ -158,12 +182,17 @@ class Runner(object):
                 tail = [(d, k, ft) for d, k, ft, _, _ in dep[-4:]]
                 if (tail == [('I', 'INF', 'D'), ('T', 'ACK', 'C'), ('I', 'NAK', 'D'), ('T', 'ACK', 'D')] and
                         o['ini'] and o['ini'][-1] == 'err ProtocolError'):
-                    ck.violation('not-recovered:corrupted-ack',
+                    self.viol('not-recovered:corrupted-ack',
                                  'a corrupted ACK response during initiator chaining is not recovered: the ACK retransmitted '
                                  'after NAK is rejected with ProtocolError', dict(case, ini=[x[:20] for x in o['ini']], tgt=[x[:20] for x in o['tgt']]))
                     return
+                if not any(f != ('D', 'D') for f in script):
+                    self.viol('nofault-not-exact:did=%s' % (cfg['did'] is not None),
+                              'a fault free conversation was not delivered exactly',
+                              dict(case, ini=[x[:20] for x in o['ini']], tgt=[x[:20] for x in o['tgt']]))
+                    return
                 lost = any(f[0] != 'D' or f == ('D', 'L') for f in script)
-                ck.violation('not-recovered:other:did=%s:timeout=%s' % (cfg['did'] is not None, lost),
+                self.viol('not-recovered:other:did=%s:timeout=%s' % (cfg['did'] is not None, lost),
                              'a single lost/corrupted frame per protocol step was not recovered transparently '
                              '(DID in use: %s, a time-out occurred: %s)' % (cfg['did'] is not None, lost),
                              dict(case, ini=[x[:20] for x in o['ini']], tgt=[x[:20] for x in o['tgt']]))
@@ -278,6 +307,14 @@ def main():
             if 'payloads' not in c:
                 continue
             unhex = lambda h: b'' if h == '-' else bytes.fromhex(h)  # noqa
+
+            def conv_of(x):
+                return {'cfg': x['cfg'], 'P': [unhex(y) for y in x['payloads']], 'R': [unhex(y) for y in x['responses']],
+                        'script': [(x['script'][i], x['script'][i + 1]) for i in range(0, len(x['script']), 2)],
+                        'rtox': x.get('rtox'), 'timeout': x.get('timeout', 8), 'release': x.get('release', True)}
+            if c.get('history'):
+                run.history([conv_of(x) for x in c['history']] + [conv_of(c)], c.get('reuse'), kind='replay')
+                continue
             sc = c['script']
             run.conv(c['cfg'], [unhex(x) for x in c['payloads']], [unhex(x) for x in c['responses']],
                      [(sc[i], sc[i + 1]) for i in range(0, len(sc), 2)], rtox=c.get('rtox'), timeout=c.get('timeout', 8),
@@ -298,6 +335,12 @@ def main():
     # NAD 0 / DID at the frame size limit: the NAD octet is sent whenever nad is not None, also for nad=0
     run.conv(cfg_(nad=0, lrt=3), [b'\x01' * 250, b'\x02' * 251], [b'\x11', b'\x12'], [], kind='corpus')
     run.conv(cfg_(brty='106A', nad=0, did=2, lrt=0), [b'\x01' * 59, b'\x02' * 60], [b'\x11' * 60, b'\x12' * 61], [], kind='corpus')
+    # the same object activated again: previous conversation of 1 PDU (target packet number 0 is stale), of 3 PDUs
+    # (initiator packet number 3 would be carried over if activate did not reset it)
+    one = {'cfg': cfg_(), 'P': [b'\x01'], 'R': [b'\x02']}
+    three = {'cfg': cfg_(), 'P': [b'\x01', b'\x02', b'\x03'], 'R': [b'\x11', b'\x12', b'\x13']}
+    run.history([one, one], 'target', kind='corpus')
+    run.history([three, one], 'initiator', kind='corpus')
     # invalid arguments (compared with the model, not judged): empty payload / empty response
     run.conv(cfg_(), [b''], [b'\x01'], [], kind='argument')
     run.conv(cfg_(), [b'\x01'], [b''], [], kind='argument')
@@ -320,6 +363,27 @@ def main():
                     P = [bytes([0x20 + i]) * n for i, n in enumerate((mi - 1, mi, mi + 1))]
                     R = [bytes([0x90 + i]) * n for i, n in enumerate((mt - 1, mt, mt + 1))]
                     run.conv(cfg, P, R, [], kind='miu-boundary')
+    run.flush()
+
+    # ---------------- histories: 2-3 successive activations + conversations on the SAME Initiator object, on the SAME
+    # Target object, on both; conversation lengths 1..5 PDUs (all packet number residues, incl. the wrap), released by
+    # RLS / DSL / not at all in between; every conversation must behave like the first one of fresh objects
+    for reuse in ('initiator', 'target', 'both'):
+        for n1 in range(1, 6):
+            for rel in (True, False, None):
+                c1 = {'cfg': cfg_(brty=BRTY[n1 % 3], did=(None, 2)[n1 % 2]), 'P': [bytes([0x30 + i]) for i in range(n1)],
+                      'R': [bytes([0xa0 + i]) * 2 for i in range(n1)], 'release': rel}
+                n2 = 1 + (n1 + (0 if rel else 1)) % 5
+                c2 = {'cfg': cfg_(brty=BRTY[(n1 + 1) % 3], nad=(None, 0)[n1 % 2], lri=n1 % 4), 'P': [bytes([0x40 + i]) * 3 for i in range(n2)],
+                      'R': [bytes([0xb0 + i]) for i in range(n2)], 'release': rng.choice([True, False, None])}
+                c3 = {'cfg': cfg_(), 'P': [b'\x51' * 62, b'\x52'], 'R': [b'\xc1', b'\xc2' * 62], 'release': True}
+                run.history([c1, c2, c3] if n1 % 2 else [c1, c2], reuse)
+    # a history with faults in the earlier conversation (it may end in the middle of a step)
+    for reuse in ('initiator', 'target', 'both'):
+        for s1 in ([('L', 'D')] * 3, [('D', 'D'), ('D', 'L'), ('D', 'L'), ('D', 'L')], [('D', 'C'), ('D', 'D'), ('D', 'D'), ('C', 'D')]):
+            c1 = {'cfg': cfg_(), 'P': [b'\x61' * 70, b'\x62'], 'R': [b'\xd1', b'\xd2'], 'script': s1, 'release': rng.choice([True, None])}
+            c2 = {'cfg': cfg_(did=3), 'P': [b'\x71', b'\x72'], 'R': [b'\xe1' * 65, b'\xe2']}
+            run.history([c1, c2], reuse)
     run.flush()
 
     # ---------------- exhaustive fault scripts for short conversations
